@@ -302,35 +302,56 @@ def vm_entry_rules(F, rep):
 SCANS = ("Iterator::find", "Iterator::any", "Iterator::all", "Iterator::position", "Iterator::find_map")
 
 
-def struct_literal_rule(F, rep):
-    """R6: a struct literal initialises every field of the definition (StructGet on a missing member is
-    one of the machine errors C24 excludes). lower_struct_literal already checks literal -> definition
-    (each named field exists, no duplicates); this is the converse direction."""
-    f = F.fn("aranya_policy_compiler::compile::lower::lower_struct_literal")
-    DEF = ("field:struct_defs", "call:get", "call:cloned")
+def literal_checks(F, f, region=None):
+    """which of {exists, typed, complete} a struct-literal consumer performs against the struct definition"""
+    got = set()
+    calls = [c for c in f.calls if region is None or c.bb in region]
 
     def from_def(o):
-        og = f.origins(o, through_calls="*")
-        return "field:struct_defs" in og
+        return o is not None and o.place is not None and "field:struct_defs" in f.origins(o, through_calls="*")
 
-    # (a) a count comparison between the literal's fields and the definition
-    counted = False
+    if any(c.name == "fits_type" for c in calls):
+        got.add("typed")
+    scans = [c for c in calls if c.is_(*SCANS) and from_def(c.args[0])]
+    for c in scans:
+        nested = False
+        for cl in f.closures_in_args(c, F):
+            if any(x.is_(*SCANS) or x.name in ("contains", "contains_key") for x in cl.calls):
+                nested = True
+        got.add("complete" if nested else "exists")
     for c in f.cmp_switches():
+        if region is not None and c["bb"] not in region:
+            continue
         oa, ob = f.origins(c["a"], through_calls="*"), f.origins(c["b"], through_calls="*")
         if "call:len" in oa and "call:len" in ob and (("field:struct_defs" in oa) != ("field:struct_defs" in ob)):
-            counted = True
-    # (b) a scan over the definition's fields whose predicate scans the literal's fields
-    nested = False
-    for c in f.calls:
-        if c.is_(*SCANS) and from_def(c.args[0]):
-            for cl in f.closures_in_args(c, F):
-                if any(x.is_(*SCANS) or x.name == "contains" or x.name == "contains_key" for x in cl.calls):
-                    oe = f.outcome_edges(c)
-                    nested = True
-    rep.check(counted or nested, "struct-literal|every-field-initialised", "K5 sibling agreement",
-              "lower_struct_literal checks the definition against the literal (count comparison or a scan of the definition's fields for one the literal lacks)",
-              "lower_struct_literal never checks that every field of the struct definition is initialised: `S { a: x }` for `struct S { a int, b int }` compiles and "
-              "`s.b` then stops the VM with an invalid-struct-member error", f.site())
+            got.add("complete")
+    return got
+
+
+def struct_literal_rule(F, rep):
+    """R6: every consumer of a struct literal checks it against the struct definition three ways: each named
+    field exists, its value fits the declared type, and every declared field is initialised. (A missing
+    member, or a member of the wrong type, surfaces as one of the machine errors C24 excludes.) The
+    consumers are lower_struct_literal (expressions) and expression_value's NamedStruct arm (global lets)."""
+    want = {"exists", "typed", "complete"}
+    f = F.fn("aranya_policy_compiler::compile::lower::lower_struct_literal")
+    got = literal_checks(F, f)
+    rep.check(want <= got, "struct-literal|every-field-initialised", "K5 sibling agreement",
+              "lower_struct_literal checks the literal against the definition: %s" % sorted(got),
+              "lower_struct_literal does not fully check a struct literal against its definition (performs %s, missing %s): e.g. `S { a: x }` for `struct S { a int, b int }` compiles and "
+              "`s.b` then stops the VM with an invalid-struct-member error" % (sorted(got), sorted(want - got)), f.site())
+    g = F.fn(CS + "expression_value")
+    sw = g.discr_switches("ast::ExprKind")
+    sk = g.outer_switch(sw) if sw else None
+    if not sk or "NamedStruct" not in sk[1]:
+        rep.anchor_missing("expression_value: NamedStruct arm")
+        return
+    reg = g.dominated_region(sk[1]["NamedStruct"])
+    got = literal_checks(F, g, reg)
+    rep.check(want <= got, "struct-literal|global-let-checked-like-expressions", "K5 sibling agreement",
+              "expression_value's NamedStruct arm checks the literal against the definition: %s" % sorted(got),
+              "a struct literal in a global `let` is not checked against its struct definition (performs %s, missing %s) although lower_struct_literal checks the same literals in "
+              "expressions: `let g = S { a: \"text\" }` for `struct S { a int }` compiles and `g.a` is a string where an int is expected" % (sorted(got), sorted(want - got)), g.site())
     arity_rule(F, rep)
 
 
